@@ -1372,7 +1372,10 @@ def generate_loopy(result: Array | AbstractResultWithNamedArrays | dict[str, Arr
     state = get_initial_codegen_state(target, options, function_name=function_name)
 
     from pytato.transform import InputGatherer
-    ing = InputGatherer()
+    # Stripping ImplStored from the outputs above may have produced an output
+    # that is equal to (but not the same object as) an untagged node elsewhere
+    # in the graph; that is harmless for gathering inputs.
+    ing = InputGatherer(err_on_collision=False)
 
     state.var_name_gen.add_names({input_expr.name
             for name in compute_order
